@@ -32,6 +32,7 @@ ASSUMPTIONS_COMMON = [
     '% and // only by positive literal constants (SMT mod/div == Python floor semantics there)',
     'numba @njit compiles the fragment with Python/numpy semantics (decorator dropped by the extraction); checked dynamically by running the compiled kernel against its contract, not proved',
     'distinct array parameters of a kernel do not alias each other (public-API precondition)',
+    'strings and lists of one-character strings are modelled as arrays of code points: a character compares equal only to a one-character string with the same code point and never to a number (str.__eq__); multi-character list elements are outside the model',
     'SMT solvers z3 5.1 / z3 4.8.12 are sound; recursive spec functions are uninterpreted for the solver and unfolded one level per occurrence (unsat answers stay sound, sat answers are only candidates and are replayed natively)',
 ]
 
